@@ -75,6 +75,12 @@ def _rand_script(rnd):
         # the control block may be an inverter known only by its '_not_NAME' shortcut
         if rnd.random() < 0.25:
             c.update(byname=True, inv=True, blk=rnd.randint(1, n), k=rnd.choice(['add_output', 'ifoutput']))
+    if len(sbl) >= 2 and rnd.random() < 0.4:
+        # one DataEdit adding the outputs of two blocks under the same key, the first one renamed
+        # in between: two references held by one filter object
+        a, b = rnd.sample(sbl, 2)
+        ctrls.append({'blk': a, 'byname': rnd.random() < .7, 'inv': False, 'k': 'add_output', 'chain': 1})
+        ctrls.append({'blk': b, 'byname': rnd.random() < .7, 'inv': False, 'k': 'add_output', 'chain': 2})
     return {'blocks': blocks, 'events': events, 'ctrls': ctrls}
 
 
@@ -173,7 +179,11 @@ def execute(stim):
             tgt = name(c['blk']) if c['byname'] else blks[c['blk']]
             if c.get('inv'):
                 tgt = '_not_' + name(c['blk'])
-            if c['k'] == 'add_output':
+            if c.get('chain') == 1:
+                ctrls.append(('add_output', edzed.DataEdit.add_output('k', tgt).rename('k', 'k0')))
+            elif c.get('chain') == 2:
+                ctrls.append(('add_output', ctrls[-1][1].add_output('k', tgt)))
+            elif c['k'] == 'add_output':
                 ctrls.append(('add_output', edzed.DataEdit.add_output('k', tgt)))
             elif c['k'] == 'ifoutput':
                 ctrls.append(('ifoutput', edzed.IfOutput(tgt)))
@@ -305,7 +315,8 @@ def execute(stim):
                     cres.append(-2)
                     continue
             if k == 'add_output':
-                cres.append(bid if res.get('k', 'missing') is tgt.output else -1)
+                key = 'k0' if spec.get('chain') == 1 else 'k'
+                cres.append(bid if res.get(key, 'missing') is tgt.output else -1)
             elif k == 'ifoutput':
                 cres.append(bid if bool(res) == bool(tgt.output) else -1)
             else:
